@@ -279,6 +279,11 @@ class Bundle:
             return ns[key]
         return object.__getattribute__(self, key)
 
+    def __delattr__(self, __name: str) -> None:
+        """Disable attribute deletion, as for `Module`s."""
+        msg = f"Cannot delete Bundle attribute {__name} of {self}"
+        raise RuntimeError(msg)
+
     def __call__(self, **kwargs):
         """Calls to Bundles return Bundle Instances"""
         return BundleInstance(of=self, **kwargs)
